@@ -699,6 +699,37 @@ for pid in ("C01", "C02"):
 for pid in ("C03", "C04"):
     PROPERTIES[pid]["explanation"] += " Further spaces: `long` (haystacks of 2^k-1, 2^k, 2^k+1 bytes for k = 6..12 with one occurrence at each position near either end or none, plain / with bare pair hits every 7 bytes / filled with the needle's first byte), `aliased` (needle and haystack are sub-slices of ONE buffer, every pair), and E2 again in a plain release build."
 
+
+# ---- additions after the fifth round of independently seeded changes
+# (R5Q: an allocation for 18 (needle length, haystack length) pairs; R5J: a
+# ranker under which two DIFFERENT needle bytes tie for the lowest rank, long
+# needle; R5M: quadratic finder construction for needles a^(k+1) b a^k b)
+import itertools as _it
+GRID_ALL = FWD + "," + REV
+PROPERTIES["C17"]["jobs"] += [ss("grid", GRID_ALL, ["alloc"], "ss/grid (every pair of lengths)")]
+PROPERTIES["C03"]["jobs"] += [
+    ss("grid", FWD, RESULT, "ss/grid/fwd (every pair of lengths, every position)"),
+    {"name": "ss[k3]/grid/fwd", "build": V("ss", "k3"), "classes": RESULT, "args": ["grid", "--tier", "{tier}", "--subjects", "memmem,finder,finder-nopre"]},
+    {"name": "ss[k4]/grid/fwd", "build": K("ss", "k4"), "classes": RESULT, "args": ["grid", "--tier", "{tier}", "--subjects", "memmem,finder"]},
+]
+PROPERTIES["C04"]["jobs"] += [
+    ss("grid", REV, RESULT, "ss/grid/rev (every pair of lengths, every position)"),
+    {"name": "ss[k3]/grid/rev", "build": V("ss", "k3"), "classes": RESULT, "args": ["grid", "--tier", "{tier}", "--subjects", "rmemmem,rfinder"]},
+]
+PROPERTIES["C14"]["jobs"] += [ss("grid", GRID_ALL + ",twoway,rtwoway,rk,rrk,shiftor", ["panic"], "ss/grid")]
+PROPERTIES["C05"]["jobs"] += [ss("grid", "memmem,finder,rmemmem,rfinder,pf-vn8,pp-vn8,pf-vn4,pp-vn4", MEMORY, "ss/grid/vn-monitored")]
+PROPERTIES["C12"]["jobs"] += [ss("grid", "twoway,rtwoway,rk,rrk,shiftor,pp-sse2,pp-avx2", RESULT, "ss/grid/blocks")]
+PROPERTIES["C11"]["jobs"] += [ss("grid", PFS, RESULT, "ss/grid/prefilter")]
+PROPERTIES["C10"]["jobs"] += [
+    ss("grid", ranked(["zero", "identity", "needle-common", "wo:0100", "wo:1001"], kinds=("ranked",)), RESULT, "ss/grid/rankers"),
+    ss("ln", ranked(["wo:" + w for w in WEAK_ORDERS], kinds=("ranked",)), RESULT, "ss/LN/weak-order rankers (ties between different needle bytes)", tiers=("quick",)),
+    ss("ln", ranked(["wo:" + "".join(w) for w in _it.product("0123", repeat=4)], kinds=("ranked",)), RESULT, "ss/LN/all rank functions on the needle's first 4 letters", tiers=("thorough",)),
+]
+for pid in ("C03", "C04", "C17"):
+    PROPERTIES[pid]["explanation"] += " `grid`: EVERY pair (needle length 0..72, haystack length 0..272) (thorough: 0..140 x 0..600), needle with all-distinct bytes / period 2 (/ period 3), with no occurrence, ONE occurrence at every position, or a truncated occurrence at the end - any code gated on a combination of the two lengths is entered."
+PROPERTIES["C10"]["explanation"] += " Long needles (LN) are also run under EVERY weak order of ranks on their first three letters (thorough: every function from the first four letters to four rank levels), so ties between different needle bytes occur at every position of the pair selection."
+PROPERTIES["C13"]["explanation"] += " Needle construction: every run-length shape of the needle with at most 4 (5) runs of 1, K(-1), K+1 bytes over two letters at about 3000 bytes - the inputs on which the suffix and period computations branch differently."
+
 HOOK_COMMITS = ["ffdf165", "556bbde", "0f24165", "8fa21ee"]
 
 ENGINES = [
